@@ -4,3 +4,4 @@ import PyhmsVerif.Props.C12
 import PyhmsVerif.Props.C01
 import PyhmsVerif.Props.C05
 import PyhmsVerif.Props.C06
+import PyhmsVerif.Props.C14
